@@ -44,6 +44,13 @@ def cases(rng, tier):
             a = [v - min(a) for v in a]        # a counter above its floor: the smallest sample exactly 0
         elif r_ < 0.25:
             a = [-abs(v) for v in a]           # nothing above 0
+        adtype = None
+        if rng.random() < 0.12:
+            # whole-number readings held in an integer dtype, large for it: every reading fits, its square does not
+            # (octet counts of a few 10^9 in int64, tens of thousands in int32, a percentage in uint8)
+            adtype, lo, hi = rng.choice([("int64", 3 * 10 ** 9, 6 * 10 ** 9), ("int32", 47000, 90000), ("uint8", 100, 250),
+                                         ("uint16", 300, 60000), ("int16", 200, 30000), ("uint32", 70000, 4 * 10 ** 9)])
+            a = [Fraction(rng.randint(lo, hi)) for _ in range(n)]
         mode = rng.choice(["db", "db", "lin", "std"])
         per = rng.random() < 0.35
         if mode == "db":
@@ -55,7 +62,8 @@ def cases(rng, tier):
         yield {"snr_dtype": rng.choice([None, None, "uint8", "uint16", "int8", "int64", "int32"]),
                "a": [str(v) for v in a], "mode": mode, "per": per, "snr": snr, "std": rng.choice([1.0, 0.25, 3.0]),
                "draw": [str(rng.dyadic(-40, 40, 16)) for _ in range(n)], "via": rng.choice(["process", "weaver"]),
-               "stat": i < (6 if tier != "thorough" else 20), "seed": rng.randint(0, 10 ** 6)}
+               "stat": i < (6 if tier != "thorough" else 20) and adtype is None, "seed": rng.randint(0, 10 ** 6),
+               **({"adtype": adtype} if adtype else {})}
 
 
 def A(c):
@@ -147,10 +155,10 @@ def run_impl(c):
     try:
         try:
             if c["via"] == "process":
-                r = noise_gauss(S.arr(a.tolist()), snr=snr, **kw)
+                r = noise_gauss(S.arr(a.tolist(), dtype=c.get("adtype")), snr=snr, **kw)
                 x_after = None
             else:
-                w = Weaver(S.arr(np.arange(len(a)).astype(float).tolist()), S.arr(a.tolist()))
+                w = Weaver(S.arr(np.arange(len(a)).astype(float).tolist()), S.arr(a.tolist(), dtype=c.get("adtype")))
                 w.noise(snr, **kw)
                 r = w.get()[1]
                 x_after = [float(v) for v in w.get()[0]]
